@@ -70,7 +70,11 @@ def _traced_files() -> frozenset:
 
 
 TRACED = _traced_files()
-NO_YIELD = frozenset({"generate_idx"})  # body of the only real lock (ConcurrentCounter)
+# no yield points inside: the body of the only real lock (ConcurrentCounter.generate_idx), and the DebugTrail.FIRST
+# wrapper around a finished loader/dumper (it happens to live in facade/retort.py but belongs to the *call* of a
+# loader, which the harness treats as atomic -- a preemption inside its ``except`` clause would also separate the
+# moment an exception is raised from the moment the harness diagnoses it)
+NO_YIELD = frozenset({"generate_idx", "trail_rendering_wrapper"})
 
 # lines of these functions are the *conflict points* (they read/write state shared between requests: the loader/
 # dumper/call caches, recursion stubs, the file-name counter, linecache) -- plus the harness's own "op" checkpoints
@@ -969,7 +973,8 @@ def explore(ctx: runner.Ctx):  # noqa: C901
     _phase(ctx, "start")
     _selfcheck(ctx)
     idx = 0
-    for name, prio, debug, strict, mode in _sweeps(ctx.tier):
+    only = os.environ.get("C12_ONLY", "")  # debugging aid: run one phase only (single | double | pct)
+    for name, prio, debug, strict, mode in (_sweeps(ctx.tier) if only in ("", "single") else []):
         base = mk_case(name, prio, [], debug, strict)
         prof = profile(base)
         points = range(prof.first_steps) if mode == "all" else prof.conflict_first
@@ -989,7 +994,7 @@ def explore(ctx: runner.Ctx):  # noqa: C901
                                 f"{name} prio={list(prio)} debug={debug} strict={strict}")
 
     _phase(ctx, "single-preemption sweeps")
-    for name, prio, stride_i, stride_j in _doubles(ctx.tier):
+    for name, prio, stride_i, stride_j in (_doubles(ctx.tier) if only in ("", "double") else []):
         base = mk_case(name, prio, [])
         prof = profile(base)
         firsts = prof.conflict_first[::stride_i]
@@ -1016,7 +1021,8 @@ def explore(ctx: runner.Ctx):  # noqa: C901
                                 f"points on conflict lines ({len(firsts)} first points)")
 
     _phase(ctx, "two-preemption sweeps")
-    ctx.given(st_case(), lambda case: check_case(ctx, case), ctx.budget(1600, 80000))
+    if only in ("", "pct"):
+        ctx.given(st_case(), lambda case: check_case(ctx, case), ctx.budget(1600, 80000))
     _phase(ctx, "PCT")
 
 
